@@ -319,6 +319,9 @@ HAND_EFFECT = [
     ('class K:\n    a = 1\n    b = a + 1\n    def m(self): return self.b\nr = K().m()', {}),
     ('def f(p, q=a):\n    t = p + q\n    return t\nr = f(1)', {'a': 2}),
     ('@dec\ndef f(): return 1\nr = f', {'dec': {'$fn': 'ident'}}),
+    ('def f():\n    with ctx(a) as w:\n        pass\n    return w\nr = f()', {'ctx': {'$cm': 1}, 'a': 4, 'w': 0}),
+    ('with ctx(a) as w, ctx(w) as z:\n    r = (w, z)', {'ctx': {'$cm': 1}, 'a': 4}),
+    ('def f():\n    def g(p: a, *q: a, k: a = 1) -> a:\n        return p\n    return sorted(g.__annotations__.items())\nr = f()', {'a': 4}),
 ]
 
 
